@@ -205,6 +205,8 @@ pub async fn run_scenario(world: &mut World, req: &str, case: usize, out: &mut V
     let thorough = kv(&w, "thorough") == Some("1");
     let mut rng = Rng::new(seed);
     st.hit(&format!("scenario_{kind}"));
+    // the scenario line itself is the replayable unit for the scenario-level oracles
+    out.push((format!("note {req}"), "-".to_string()));
     let v6 = rng.chance(1, 4);
     let mut sim = Sim { rng: rng.fork(), v6, peers: vec![], reals: vec![], flights: BinaryHeap::new(), seq: 0, lat_ms: (5, 300), end: 0, now_hint: 0 };
     let t0: u128 = 1000 * S;
@@ -433,7 +435,7 @@ fn build_other(kind: &str, rng: &mut Rng, sim: &mut Sim, ck: &mut Checker, v6: b
                 }
             }
             sim.end = t_search + 40 * S;
-            ck.e2e = Some(E2e { ih, announcers: announcers.iter().map(|k| { let mut a = addrs[*k]; if let Some(p) = ports[*k] { a.set_port(p) } (*k, a) }).collect(), searchers, t_search, last_ack: HashMap::new(), pending: HashSet::new() });
+            ck.e2e = Some(E2e { ih, announcers: announcers.iter().map(|k| { let mut a = addrs[*k]; if let Some(p) = ports[*k] { a.set_port(p) } (*k, a) }).collect(), searchers, t_search, last_ack: HashMap::new(), pending: HashSet::new(), asked: HashMap::new(), late: vec![] });
         }
         // C01, the 24 h clause end to end: announce, optionally re-announce hours later, search
         // 23.5 h after the last announce (must find) and 24 h 10 min after it (must not)
@@ -464,7 +466,7 @@ fn build_other(kind: &str, rng: &mut Rng, sim: &mut Sim, ck: &mut Checker, v6: b
             sim.end = t_last + 24 * 3600 * S + 700 * S;
             let mut a = addrs[0];
             if let Some(p) = ports[0] { a.set_port(p) }
-            ck.e2e = Some(E2e { ih, announcers: vec![(0, a)], searchers: vec![searcher], t_search: t_last, last_ack: HashMap::new(), pending: HashSet::new() });
+            ck.e2e = Some(E2e { ih, announcers: vec![(0, a)], searchers: vec![searcher], t_search: t_last, last_ack: HashMap::new(), pending: HashSet::new(), asked: HashMap::new(), late: vec![] });
         }
         _ => {}
     }
@@ -482,6 +484,10 @@ struct E2e {
     last_ack: HashMap<usize, u128>,
     /// announce_peer queries on their way: (announcer node, transaction id)
     pending: HashSet<(usize, Vec<u8>)>,
+    /// get_peers queries for the info-hash: (node, transaction id) -> time sent
+    asked: HashMap<(usize, Vec<u8>), u128>,
+    /// (node, time the query was sent) of answers that came back after the 1.5 s query timeout
+    late: Vec<(usize, u128)>,
 }
 
 #[derive(Default)]
@@ -702,13 +708,19 @@ impl Checker {
             if w[0] == "dg" && w.get(4) == Some(&"r") {
                 let k: usize = w[1].parse().unwrap();
                 if let Some(tid) = world.tid_bytes(w[2]) {
-                    if e2e.pending.remove(&(k, tid)) { e2e.last_ack.insert(k, now); st.hit("e2e_announce_acked"); }
+                    if e2e.pending.remove(&(k, tid.clone())) { e2e.last_ack.insert(k, now); st.hit("e2e_announce_acked"); }
+                    if let Some(sent) = e2e.asked.remove(&(k, tid)) {
+                        if now > sent + 1500 * MS { e2e.late.push((k, sent)); st.hit("e2e_answer_after_query_timeout"); }
+                    }
                 }
             }
             for e in &world.last {
                 if let Some((_, bytes, true)) = &e.sent {
                     if let Ok(m) = Message::decode(bytes) {
                         if matches!(m.body, MessageBody::Request(Request::AnnouncePeer(_))) { e2e.pending.insert((e.node, m.transaction_id.clone())); }
+                        if let MessageBody::Request(Request::GetPeers(g)) = &m.body {
+                            if g.info_hash.as_ref() == &e2e.ih[..] { e2e.asked.insert((e.node, m.transaction_id.clone()), e.t); }
+                        }
                     }
                 }
             }
@@ -761,7 +773,10 @@ impl Checker {
                         let end = s.3.unwrap_or(now);
                         let found = s.2.contains(contact);
                         if end < ack + 24 * 3600 * S && s.0 > *ack && !found {
-                            st.fail(case, line, &format!("[C01] node {sk} searched at {} ({} s after node {ak}'s last acknowledged announce) and did not find {}; it yielded {:?}", s.0, (s.0 - ack) / S, addr_str(contact), s.2.iter().map(addr_str).collect::<Vec<_>>()));
+                            // was an answer to one of this search's queries lost to the 1.5 s query timeout?
+                            let late = e2e.late.iter().any(|(k, sent)| k == sk && *sent >= s.0 && *sent <= end);
+                            let why = if late { " late-answer: an answer to one of its get_peers queries took longer than the 1.5 s query timeout (round trip of two datagrams of less than 1 s each) and was discarded" } else { "" };
+                            st.fail(case, line, &format!("[C01] node {sk} searched at {} ({} s after node {ak}'s last acknowledged announce) and did not find {}; it yielded {:?}{why}", s.0, (s.0 - ack) / S, addr_str(contact), s.2.iter().map(addr_str).collect::<Vec<_>>()));
                         }
                         if s.0 > ack + 24 * 3600 * S + 60 * S && found {
                             st.fail(case, line, &format!("[C01] node {sk} still finds {} {} s after the last announce", addr_str(contact), (s.0 - ack) / S));
